@@ -121,7 +121,10 @@ def insert_harness(kind: str, cname: str, cls: type, alts: dict[str, str], dict_
         state = VDict([(VStr("session"), I.fresh_int("session")),
                        (VStr("security_access_level"), NONE)])
         t1 = VObj(Stub, {}, lazy=True, tag="time")
-        t2 = VObj(Stub, {}, lazy=True, tag="time")
+        # ECU._request passes receive_time=None together with the reply when the reply raised a
+        # ResponseException (mismatching / malformed): the reply bytes are logged all the same
+        no_recv = kind == "response" and I.choose([z3.BoolVal(True)] * 2) == 1
+        t2: V = NONE if no_recv else VObj(Stub, {}, lazy=True, tag="time")
         mode = VConst(H.LogMode.implicit)
         I.ghost["puts"] = []
         try:
@@ -153,7 +156,8 @@ def insert_harness(kind: str, cname: str, cls: type, alts: dict[str, str], dict_
             I.prove("I-response-column-is-the-complete-hex-pdu",
                     models.str_term(rs) == hex_of(I, pdu) if isinstance(rs, VStr) and
                     (rs.t is not None or rs.s is not None) else z3.BoolVal(False))
-            I.prove("I-response-time-present", z3.BoolVal(cols[7] is not NONE))
+            I.prove("I-response-time-present-iff-a-receive-time-was-taken",
+                    z3.BoolVal((cols[7] is not NONE) == (not no_recv)))
         else:
             I.prove("I-no-response-columns-without-response",
                     z3.BoolVal(cols[6] is NONE and cols[7] is NONE and cols[9] is NONE))
@@ -277,8 +281,82 @@ def ecu_harness(logging_on: bool, db: bool, tags: str):
     return harness
 
 
+def scanner_setup_harness(I: Interp) -> None:
+    """`UDSScanner.setup` with a database handler: whenever a request can leave through
+    `self.ecu`, the ECU object's implicit-logging switch equals the scanner's (a scanner that
+    sets `implicit_logging = False` in its constructor - before the ECU object exists - gets
+    nothing recorded, from the first request on).  Assumes `insert_scan_run` succeeds."""
+    import gallia.command.base as B
+    import gallia.command.uds as U
+    wanted = I.fresh_bool("scanner_implicit_logging", inp=True)
+    calls: list[tuple[str, V]] = []
+    ecu = VObj(Stub, {"implicit_logging": VBool(True), "db_handler": NONE}, lazy=True,
+               tag="ecu")
+
+    def ecu_factory(*a: Any, **k: Any) -> None:  # stands for the class load_ecu returns
+        return None
+    # load_ecu(oem)(transport, ...) -> the ECU object (implicit_logging defaults to True)
+    models.MODELS[U.load_ecu] = lambda I2, a, k: VConst(ecu_factory)
+    models.MODELS[ecu_factory] = lambda I2, a, k: ecu
+    for meth in ("ecu_reset", "set_session", "wait_for_ecu", "connect",
+                 "start_cyclic_tester_present", "properties"):
+        def sent(I2: Interp, r: V, a: list[V], k: dict[str, V], meth: str = meth) -> V:
+            calls.append((meth, ecu.fields["implicit_logging"]))
+            if meth == "properties":
+                return coro(lambda: VObj(Stub, {}, lazy=True, tag="props"))
+            if meth in ("ecu_reset", "set_session"):
+                return coro(lambda: VObj(Stub, {}, lazy=True, tag="resp"))
+            return coro(lambda: NONE)
+        I.ex.stubs[("ecu", meth)] = sent
+    I.ex.stubs[("props", "to_json")] = lambda I2, r, a, k: VStr()
+    I.ex.stubs[("db", "insert_scan_run")] = lambda I2, r, a, k: coro(lambda: NONE)
+    I.ex.stubs[("db", "insert_scan_run_properties_pre")] = lambda I2, r, a, k: coro(lambda: NONE)
+    I.ex.contracts[B.Scanner.setup] = lambda I2, self_: coro(lambda: NONE)
+    models.MODELS[U.raise_for_error] = lambda I2, a, k: NONE
+    cfg = VObj(Stub, {}, lazy=True, tag="config")
+    I.ex.stub_attrs[("config", "ecu_reset")] = lambda I2, o: (
+        NONE if I2.choose([z3.BoolVal(True)] * 2) == 0 else VInt(1))
+    for name in ("ping", "tester_present", "properties"):
+        I.ex.stub_attrs[("config", name)] = lambda I2, o, name=name: VBool(
+            I2.choose([z3.BoolVal(True)] * 2) == 1)
+    for name in ("oem", "timeout", "max_retries", "tester_present_interval"):
+        I.ex.stub_attrs[("config", name)] = lambda I2, o: VInt(1)
+    I.ex.stub_attrs[("config", "target")] = lambda I2, o: VObj(Stub, {"raw": VStr()}, lazy=True,
+                                                               tag="target")
+    obj = VObj(U.UDSScanner, {"db_handler": VObj(Stub, {}, lazy=True, tag="db"),
+                              "transport": VObj(Stub, {}, lazy=True, tag="transport"),
+                              "power_supply": NONE, "config": cfg, "artifacts_dir": NONE,
+                              "_implicit_logging": wanted})
+    try:
+        I.await_v(I.call_v(I.getattr_v(obj, "setup"), [], {}))
+    except PyExc as e:
+        I.fail("S-setup-does-not-raise-with-a-cooperative-environment", e.exc.cls.__name__)
+        return
+    for i, (meth, flag) in enumerate(calls):
+        I.prove(f"S-ecu.implicit_logging-is-the-scanner's-setting-when-ecu.{meth}-runs",
+                flag.t == wanted.t if isinstance(flag, VBool) else z3.BoolVal(False))
+    fin = ecu.fields["implicit_logging"]
+    I.prove("S-ecu.implicit_logging-is-the-scanner's-setting-after-setup",
+            fin.t == wanted.t if isinstance(fin, VBool) else z3.BoolVal(False))
+    I.prove("S-ecu-logs-to-the-scanner's-handler",
+            z3.BoolVal(ecu.fields.get("db_handler") is obj.fields["db_handler"]))
+
+
+def setter_harness(I: Interp) -> None:
+    """The `implicit_logging` setter reaches the ECU object at once when a handler is present."""
+    import gallia.command.uds as U
+    ecu = VObj(Stub, {"implicit_logging": VBool(True)}, lazy=True, tag="ecu")
+    obj = VObj(U.UDSScanner, {"db_handler": VObj(Stub, {}, lazy=True, tag="db"), "ecu": ecu,
+                              "_implicit_logging": VBool(True)})
+    v = I.fresh_bool("value", inp=True)
+    I.setattr_v(obj, "implicit_logging", v)
+    I.prove("S-setter-updates-the-scanner", obj.fields["_implicit_logging"].t == v.t)
+    I.prove("S-setter-reaches-the-ecu-object", ecu.fields["implicit_logging"].t == v.t)
+
+
 def build_units(tier: str) -> list[Unit]:
-    units: list[Unit] = []
+    units: list[Unit] = [Unit("scanner/UDSScanner.setup", scanner_setup_harness),
+                         Unit("scanner/implicit_logging.setter", setter_harness)]
     for lg in (True, False):
         for db in (True, False):
             for tags in ("noconfig", "notags", "analyze", "other"):
@@ -322,6 +400,8 @@ def native_replay(unit: str, obligation: str, model: dict) -> tuple[bool, str]:
     import gallia.command  # noqa: F401
     from gallia.db.handler import DBHandler, LogMode
     S = service_module()
+    if not unit.startswith(("insert/", "store/")):
+        return False, "no native scenario for this obligation"
     tmp = tempfile.mkdtemp(prefix="c11_")
     path = os.path.join(tmp, "x.sqlite")
     long_req = S.WriteDataByIdentifierRequest(0x1234, bytes(range(20)))
@@ -334,12 +414,16 @@ def native_replay(unit: str, obligation: str, model: dict) -> tuple[bool, str]:
         from gallia.command.config import GalliaBaseModel  # noqa: F401
         h = DBHandler(Path(path))
         await h.connect()
-        await h.insert_run_meta(script="x", config=None, start_time=datetime.now().astimezone(),
-                                path=None) if False else None
-        h.scan_run = 1
+        from gallia.command.config import GalliaBaseModel as GBM
+        await h.insert_run_meta(script="x", config=GBM(), start_time=datetime.now().astimezone(),
+                                path=None)
+        await h.insert_scan_run("c11://replay")
         await h.insert_scan_result({"session": 1}, long_req, resp, None,
                                    datetime.now().astimezone(), datetime.now().astimezone(),
                                    LogMode.implicit)
+        # a reply the client flagged as mismatching: logged without receive time
+        await h.insert_scan_result({"session": 1}, long_req, resp, None,
+                                   datetime.now().astimezone(), None, LogMode.implicit)
         await h.disconnect()
     err = None
     try:
@@ -356,7 +440,11 @@ def native_replay(unit: str, obligation: str, model: dict) -> tuple[bool, str]:
     import shutil
     shutil.rmtree(tmp, ignore_errors=True)
     want = long_req.pdu.hex()
-    bad = err is not None or not rows or rows[0][0] != want
+    bad = err is not None or len(rows) != 2 or any(r[0] != want for r in rows)
+    if "response-column" in obligation:
+        bad = err is not None or len(rows) != 2 or any(r[1] != resp.pdu.hex() for r in rows)
+        return bad, (f"rows (request, reply) {rows} for the reply {resp.pdu.hex()} logged with "
+                     f"and without a receive time (error: {err})")
     return bad, f"stored row {rows} for request {want} (error: {err})"
 
 
